@@ -210,8 +210,7 @@ func (api *API) mapEncodeStructFields(
 		}
 
 		switch {
-		case sField.settings.ts.fieldKey != nil:
-			obj.Set(*sField.settings.ts.fieldKey, eleOut)
+		// the decoder reads an inlined field from the parent object, whether or not the tag names a key
 		case sField.settings.inlined:
 			castedEleOut, ok := eleOut.(*orderedmap.OrderedMap)
 			if !ok {
@@ -221,6 +220,8 @@ func (api *API) mapEncodeStructFields(
 			for _, k := range castedEleOut.Keys() {
 				obj.Set(k, lo.Return1(castedEleOut.Get(k)))
 			}
+		case sField.settings.ts.fieldKey != nil:
+			obj.Set(*sField.settings.ts.fieldKey, eleOut)
 		default:
 			obj.Set(FieldKeyString(sField.name), eleOut)
 		}
